@@ -133,6 +133,9 @@ func (t *Type) Str(q Qual) string {
 	case UPtr:
 		return "unsafe.Pointer"
 	case UStruct:
+		if t.Text != "" {
+			return t.Text // spelled out (field tags)
+		}
 		var sb strings.Builder
 		sb.WriteString("struct{ ")
 		for i, f := range t.Fields {
